@@ -27,6 +27,9 @@ type graphCase struct {
 type steer struct {
 	Out   map[string]string `json:"out"`   // node key -> output condition
 	Early string            `json:"early"` // node key that answers the request ("" = none)
+	// RespType: nodes that report the stream type "response" in their ProcessorIO when they run on the
+	// response direction (as GenerateResponse and ReadCache do); the walk must not depend on it
+	RespType map[string]bool `json:"reports_response_type_on_response,omitempty"`
 }
 
 type ev struct {
@@ -176,6 +179,12 @@ func genSteer(r *sim.Rand, gc graphCase) steer {
 			}
 			sorted := sim.SortedKeys(keys)
 			s.Out[n.Key] = sorted[r.Intn(len(sorted))]
+			if r.Chance(1, 4) {
+				if s.RespType == nil {
+					s.RespType = map[string]bool{}
+				}
+				s.RespType[n.Key] = true
+			}
 		}
 	}
 	if len(gc.Early) > 0 && r.Chance(1, 2) {
@@ -192,6 +201,9 @@ func headersFor(s steer) map[string]string {
 			v += "|a=early:418:by-" + k
 		} else {
 			v += "|a=modhdr:src-" + k + "=1"
+		}
+		if s.RespType[k] {
+			v += "|yr=response"
 		}
 		h["x-vp-"+strings.ToLower(k)] = v
 	}
